@@ -41,7 +41,7 @@ F_MD6 = "C02-md6-hash-regex-unanchored"
 F_TOP = "C02-toplevel-extension-without-extensions-property"
 F_EXT0 = "C02-empty-extensions-dictionary"
 F_MD20 = "C02-v20-marking-definition-created-without-milliseconds"
-F_SOCK = "C02-socket-option-boolean-for-integer"
+F_SOCK = "C02-socket-options-boolean-value"
 
 
 def _ident(**kw):
